@@ -18,7 +18,13 @@ def P(text, ref, note=SEQ_NOTE, cat='proof'):
 CLAIMS = {
     'C01': P('Sequential part: contracts on Lower::get/get_at/put (block aligned, in range, entirely free before, exactly it marked) and on every allocator-level '
              'allocation path (a success returns the block of its one lower-level allocation), discharged for all states under the representation invariants. '
-             'The all-interleavings part is NOT decided in this revision (see DESIGN.md 4 and 10).', 'DESIGN.md 6 C01'),
+             'All-interleavings part: thread-modular rely/guarantee call contracts of the bit-claiming functions (set_first_zeros, set_first_zero_rows, toggle, all orders): '
+             'a returned block is exclusively owned, a failed call keeps nothing, for any number of other threads and any schedule.', 'DESIGN.md 4, 6 C01',
+             note=SEQ_NOTE + ' Concurrency: sequentially consistent atomics; rely = other threads meet the same guarantee (DESIGN.md 4.3, paper argument); retry loops modelled with one interference '
+                  'between load and CAS; multi-huge-frame CAS and the counter protocol of Lower::get/put are covered sequentially only.'),
+    'C03': P('For the bit-level functions every free of a held block returns Ok and no call panics (undo expect()s included) under the rely/guarantee environment: any number of '
+             'threads, any schedule. The allocator-level panics and the counter/marker protocol of the lower level are covered sequentially only (C09).', 'DESIGN.md 4, 6 C03',
+             note=SEQ_NOTE + ' Concurrency scope: Bitfield::toggle / set_first_zeros / set_first_zero_rows only; partial_put_huge spin-wait (panic "Exceeding retries" when a peer stalls) is NOT covered.'),
     'C02': P('The ownership-model clauses of the statement are the postconditions of Lower::put/get/get_at (all bit states of a tree, every order) and of LLFree::put/get (all '
              'counter states under invariant I); initialisation establishes the invariants (C06 obligations), every operation preserves them, so they hold after every history.', 'DESIGN.md 6 C02'),
     'C04': P('Invariant I (tree counter + slot counter == frames free below; reserved <=> one slot holds the tree) and wf_lower (counter == zeros) are preserved by every public operation; '
@@ -51,7 +57,7 @@ CLAIMS = {
     'C19': P('Count::to_local against to_count over all usize; ClassingConfig::request for 1..4 classes, every Count kind, any order window, all order/core/cores/pid/gfp values.', 'DESIGN.md 6 C19',
              note='GfpMatch::matches is replaced by an arbitrary boolean (assumed: pure, terminating); class ids distinct; cores >= 1.'),
     'C21': P('Without interference Atom::try_update/update run their closure exactly once (unwinding bound of one retry discharged); spin_wait polls at most RETRIES times; every loop of every '
-             'obligation exits within its unwinding bound. The mid-call freeze obligation is not covered in this revision.', 'DESIGN.md 6 C21'),
+             'obligation exits within its unwinding bound. With a symbolic interference budget (environment frozen at any point) the bit-level calls still complete within their unwinding bounds.', 'DESIGN.md 6 C21'),
     'C23': ('proof',
             'Contract on first_zeros_aligned (postcondition transcribed from the statement) discharged by Kani/CBMC for all 2^64 '
             'rows, one loop-free obligation per order 0..=6: a complete proof for the function, not a bounded run.',
@@ -63,7 +69,6 @@ CLAIMS = {
 NOT_APPLICABLE = {
     'C20': 'The logic is an unnamed region of main() in eval/src/bin/replay.rs (argument parsing, mmap of a trace, one loop body over '
            'locals): there is no function to put a contract on without editing the code under test or writing a look-alike model.',
-    'C03': 'all-interleavings property: the thread-modular rely/guarantee obligations of DESIGN.md 4 are not built in this revision; Kani has no threads, and no sequential contract decides a schedule-quantified property',
     'C22': 'llc/ is an empty directory (submodule not populated) and eval/src/llc.rs does not compile without the generated bindings: '
            'there is no C code in the tree to put a contract on.',
 }
